@@ -1,5 +1,5 @@
 """per-property checks"""
-import json, os, re, sys, time
+import json, os, re, subprocess, sys, time
 from runner import *
 
 TRUST_COMMON = [
@@ -776,3 +776,179 @@ def check_C14(ctx):
                             "source files listing random subsets of the nodes (a node may be listed by several); data without any source maps; also checked: the same graph without source maps gives identical results minus locations")
     ctx.assumptions += ["regex.find_n and to_number of the engine are modelled by digitRuns/readNat (tied by this correspondence, including 30-digit numbers)"]
     return conclude(ctx, broken, trusted=TRUST_COMMON)
+
+
+# ------------------------------------------------------------------ C10
+
+C10_THEOREMS = ["Acv.C10.atomic_issues_range", "Acv.C10.atomic_unique", "Acv.C10.atomic_unique_per_thread",
+                "Acv.C10.atomic_disjoint_between_threads", "Acv.C10.racy_collides", "Acv.C10.racy_duplicate_across_threads",
+                "Acv.C10.racy_lost_update", "Acv.C10.racy_sequential_ok",
+                "Acv.C10.package_vars_expected", "Acv.C10.writes_are_atomic", "Acv.C10.no_goroutines"]
+
+
+def check_C10(ctx):
+    broken = []
+    try:
+        build_harness()
+        run_extract()
+    except Broken as b:
+        return conclude(ctx, [b])
+    try:
+        lake_build(["Acv.Props.C10Inventory"])
+    except Broken as b:
+        broken.append(b)
+    broken += prove(ctx, "Acv.Props.C10", C10_THEOREMS, extra_targets=["Acv.Props.C10Inventory"])
+    # search side: the race detector and serial/parallel comparison (never a substitute for the theorems)
+    try:
+        race_bin = build_harness(race=True)
+        rounds = 2 if ctx.quick() else 12
+        total_calls, bad = 0, 0
+        for r in range(rounds):
+            env = dict(os.environ, GORACE="halt_on_error=0 history_size=2")
+            p = subprocess.run([race_bin, "racestress", str(ctx.seed * 100 + r), "12" if ctx.quick() else "24", "6" if ctx.quick() else "12"],
+                               capture_output=True, text=True, timeout=1800, env=env)
+            out = None
+            for l in p.stdout.split("\n"):
+                if l.startswith("{"):
+                    out = json.loads(l)
+            races = p.stderr.count("WARNING: DATA RACE")
+            if races:
+                bad += 1
+                first = p.stderr[p.stderr.find("WARNING: DATA RACE"):][:1500]
+                where = re.findall(r"\n\s+(/repo/[^\s]+)", first)
+                own = [w for w in where if "/repo/" in w][:4]
+                ctx.violation("C10:data-race:" + ",".join(own[:2]), f"the race detector reports {races} data race(s) under {out and out.get('goroutines')} concurrent goroutines; first at {own[:2]}",
+                              {"round": r, "stderr_head": first, "summary": out})
+            if out is None or out.get("outcome") != "ok":
+                bad += 1
+                ctx.violation("C10:stress-failed", f"race stress run did not finish: rc={p.returncode} {p.stderr[-300:]}", {"round": r, "stderr_tail": p.stderr[-1500:]})
+                continue
+            total_calls += out["calls"]
+            if out["mismatches"]:
+                bad += 1
+                ctx.violation("C10:interference:" + out["mismatches"][0].split(" on job")[0].split("call")[-1][:40], out["mismatches"][0], {"round": r, "summary": out})
+        ctx.coverage.setdefault("streams", {})["racestress"] = {"rounds": rounds, "concurrent_calls": total_calls}
+        ctx.coverage["evaluations"] = total_calls
+        ctx.coverage["distinct_nontrivial"] = rounds
+        ctx.samples.append({"stream": "racestress", "rounds": rounds, "calls": total_calls})
+        ctx.oblige("search:-race stress (mixed Validate/CompileProfile/ValidateCompiled with a shared compiled profile) and serial-vs-parallel report comparison", bad == 0)
+    except Broken as b:
+        broken.append(b)
+    ctx.coverage["rule"] = ("theorems over every schedule of any number of threads; inventory of package-level state regenerated with go/packages; "
+                            "search: 12-24 goroutines x 6-12 calls mixing all entry points over 6 profiles, one PreparedEvalQuery shared by all, under the Go race detector, each result compared with its serial counterpart")
+    ctx.assumptions += ["data-race freedom of OPA, json-gold, yaml.v3 and of the Go runtime's view of memory is not modelled: a torn read cannot be exhibited by the interleaving model; only searched with the race detector",
+                        "OPA documents PreparedEvalQuery.Eval as safe for concurrent use"]
+    return conclude(ctx, broken, trusted=TRUST_COMMON + ["go/packages-based inventory extractor (harness/extract_types.go)"])
+
+
+# ------------------------------------------------------------------ C06
+
+C06_THEOREMS = ["Acv.C06.insertAll_perm", "Acv.C06.insertAll_lookup", "Acv.C06.iriContext_perm", "Acv.C06.assignFields_perm",
+                "Acv.C06.field_ids_independent", "Acv.C06.assignIds_perm", "Acv.C06.assignIds_nodup_perm",
+                "Acv.C06.sites_expected", "Acv.C06.no_go_statements", "Acv.C06.old_order_leaks",
+                "Acv.C06.insertAll_needs_distinct_keys"]
+
+
+def check_C06(ctx):
+    broken = []
+    try:
+        build_harness()
+        run_extract()
+    except Broken as b:
+        return conclude(ctx, [b])
+    broken += prove(ctx, "Acv.Props.C06", C06_THEOREMS)
+    try:
+        n = 24 if ctx.quick() else 120
+        runs = 8 if ctx.quick() else 48
+        lines = gen_cases("c06", n, ctx.seed * 1000 + 3)
+        # plus the repository's own fixtures (profile + data) as cases
+        fixtures = []
+        tdir = os.path.join(REPO, "test", "data", "integration")
+        if os.path.isdir(tdir):
+            for d in sorted(os.listdir(tdir))[: (6 if ctx.quick() else 40)]:
+                pf, df = os.path.join(tdir, d, "profile.yaml"), os.path.join(tdir, d, "negative.data.jsonld")
+                if os.path.exists(pf) and os.path.exists(df):
+                    fixtures.append(json.dumps({"op": "c06", "id": 1000 + len(fixtures), "profile": open(pf).read(), "data": open(df).read()}))
+        payload = "\n".join(lines + fixtures) + "\n"
+        import concurrent.futures
+        def one(_):
+            p = subprocess.run([ACVH, "oneshot"], input=payload, capture_output=True, text=True, timeout=3600)
+            return [l for l in p.stdout.split("\n") if l.strip()]
+        with concurrent.futures.ThreadPoolExecutor(max_workers=16) as ex:
+            outs = list(ex.map(one, range(runs)))
+        cases = [json.loads(l) for l in lines + fixtures]
+        bad = 0
+        for k, case in enumerate(cases):
+            vals = {}
+            for r, o in enumerate(outs):
+                if k >= len(o):
+                    vals.setdefault("<missing>", []).append(r)
+                    continue
+                rec = json.loads(o[k])
+                vals.setdefault((rec.get("generate"), rec.get("validate"), rec.get("panic")), []).append(r)
+            if len(vals) > 1:
+                bad += 1
+                gens = {v[0] for v in vals if isinstance(v, tuple)}
+                what = "generated Rego" if len(gens) > 1 else "report"
+                ctx.violation(f"C06:nondeterministic-{what.split()[0]}", f"{len(vals)} different {what}s for the same profile/data in {runs} fresh processes (case {case['id']})",
+                              {"case": case, "distinct_outputs": [{"hashes": list(k2) if isinstance(k2, tuple) else k2, "runs": v} for k2, v in vals.items()]})
+        ctx.coverage.setdefault("streams", {})["fresh-processes"] = {"cases": len(cases), "processes": runs, "generated": len(lines), "fixtures": len(fixtures)}
+        ctx.coverage["evaluations"] = len(cases) * runs
+        ctx.coverage["distinct_nontrivial"] = len(cases)
+        ctx.samples.append({"stream": "fresh-processes", "profile_head": cases[0]["profile"][:400]})
+        ctx.oblige("search:byte-identical generated code and reports across fresh processes", bad == 0)
+    except Broken as b:
+        broken.append(b)
+    ctx.coverage["rule"] = ("profiles with 2..8 nested/atLeast/atMost constraints under one propertyConstraints map (several constraint keys per property, several prefixes), and repository fixtures; "
+                            "each generated and validated (fixed clock) in N fresh processes; all hashes must coincide. Concurrency: see C10's race stress, which compares parallel with serial reports.")
+    ctx.assumptions += ["determinism of OPA (set ordering), json-gold, yaml.v3 and encoding/json (sorted map keys) is a dependency property: observed only",
+                        "every range over a Go map in the library is one of the four inventoried sites (theorem sites_expected over the regenerated inventory)"]
+    return conclude(ctx, broken, trusted=TRUST_COMMON + ["go/packages-based inventory extractor"])
+
+
+# ------------------------------------------------------------------ C08
+
+C08_THEOREMS = ["Acv.C08.forbidden_denied", "Acv.C08.denied_exist", "Acv.C08.forbidden_exist", "Acv.C08.single_compile_site",
+                "Acv.C08.deny_list_rejects_at_any_depth", "Acv.C08.old_list_misses_lookup",
+                "Acv.C08Term.denied_call_rejected", "Acv.C08Term.accept_iff", "Acv.C08Term.contexts_reach_every_occurrence"]
+
+
+def cmp_c08(case, i, m):
+    if "error" in m:
+        return ("model-error", "model driver rejected the case: " + m["error"])
+    where = f"{case['builtin']} at position {case['position']} ({case['syntax']})"
+    if i.get("outcome") == "panic":
+        return ("panic", f"{where}: CompileProfile panicked: {str(i.get('err'))[:150]}")
+    if m["forbidden"] and not i.get("unsafeRejected"):
+        return ("forbidden-accepted:" + case["builtin"], f"{where}: the profile was {'ACCEPTED' if i.get('outcome') == 'accepted' else 'rejected for another reason: ' + str(i.get('err'))[:120]} - a forbidden built-in must be rejected by the deny-list")
+    if bool(i.get("unsafeRejected")) != m["denied"]:
+        return ("deny-list-mismatch:" + case["builtin"], f"{where}: rejected-as-unsafe={i.get('unsafeRejected')} but on the regenerated deny-list={m['denied']}")
+    return None
+
+
+def check_C08(ctx):
+    broken = []
+    try:
+        build_harness()
+        run_extract()
+    except Broken as b:
+        return conclude(ctx, [b])
+    broken += prove(ctx, "Acv.Props.C08", C08_THEOREMS)
+    try:
+        full = not ctx.quick()
+        lines, impl, model = corr(ctx, "c08", 2 if full else 1, cmp_c08)
+        st = ctx.coverage["streams"]["c08"]
+        st["builtins"] = len({json.loads(l)["builtin"] for l in lines})
+        st["accepted"] = sum(1 for i in impl if i.get("outcome") == "accepted")
+        st["rejected_unsafe"] = sum(1 for i in impl if i.get("unsafeRejected"))
+        st["rejected_other"] = sum(1 for i in impl if i.get("outcome") == "rejected" and not i.get("unsafeRejected"))
+        ctx.coverage["exhaustive"] = full
+        ctx.coverage["distinct_nontrivial"] = st["rejected_unsafe"]
+        ctx.oblige("correspondence:built-in x embedding position x call syntax compile matrix (rejected as unsafe iff on the deny-list; every forbidden built-in rejected everywhere)", not ctx.violations)
+    except Broken as b:
+        broken.append(b)
+    ctx.coverage["rule"] = ("every built-in registered in the linked engine (thorough: all; quick: the 5 forbidden ones everywhere + a 6% sample of the rest) x 12 embedding positions (rego, regoModule, code/message form, not, and, or, if, "
+                            "path-level rego, nested, atLeast, helper function in rego_extensions called from a rule, helper never called) x 4 call syntaxes (assignment, inside a comprehension, as argument of another call, bare statement); "
+                            "type-correct sample arguments from the built-in's declaration; only CompileProfile is called, so nothing is evaluated")
+    ctx.assumptions += ["the engine's capability check (rego.UnsafeBuiltins) is a dependency: modelled at term level (C08Term), tied by the matrix", "js/validator.go (WASM entry, build-constrained) calls the same internal pipeline and is not loaded by the inventory"]
+    return conclude(ctx, broken, trusted=TRUST_COMMON + ["go/packages-based inventory of engine API calls"])
